@@ -367,6 +367,8 @@ impl Ctx {
             }
         }
         *self.shrinking.borrow_mut() = false;
+        // partial results survive a later abort / hang of this worker
+        self.finish();
     }
 
     /// Generate one value from a strategy with this context's deterministic rng (for hand-driven loops).
@@ -620,6 +622,9 @@ pub fn run_parent(spec: RunSpec, regressions: bool) -> i32 {
             }
             Some(st) => {
                 use std::os::unix::process::ExitStatusExt;
+                if st.signal().is_some() || st.code() == Some(5) {
+                    if let Some(r) = std::fs::read(&result_path).ok().and_then(|b| serde_json::from_slice::<WorkerResult>(&b).ok()) { merge(&mut merged, &mut nontrivial, r); }
+                }
                 if let Some(sig) = st.signal() {
                     // abort of the worker process: attribute to the in-flight case
                     let inflight: Value = InflightMap::read(&inflight_path).and_then(|b| serde_json::from_slice(&b).ok())
@@ -632,7 +637,6 @@ pub fn run_parent(spec: RunSpec, regressions: bool) -> i32 {
                         let v = Violation { property: spec.property.clone(), section, sig: vsig.clone(), detail: format!("worker process died with signal {} while executing this case (stack overflow / abort cannot be caught in-process)", sig), case: inflight.get("case").cloned().unwrap_or(Value::Null) };
                         if known.is_known(&spec.property, &vsig) { *merged.known.entry(vsig).or_insert(0) += 1; } else { merged.violations.push(v); }
                     }
-                    // partial results of that worker are lost; fine
                 } else if st.code() == Some(5) {
                     // a single case exceeded the per-case limit
                     let inflight: Value = InflightMap::read(&inflight_path).and_then(|b| serde_json::from_slice(&b).ok()).unwrap_or(Value::Null);
